@@ -85,7 +85,7 @@ PROPS = {
     },
     "C02": {
         "pkg": "internal/config",
-        "files": ["shared/zz_verif_doc_test.go", "config/zz_verif_common_test.go", "config/zz_verif_C02_test.go", "config/zz_verif_fuzz_test.go"],
+        "files": ["shared/zz_verif_doc_test.go", "config/zz_verif_common_test.go", "config/zz_verif_accepted_test.go", "config/zz_verif_C02_test.go", "config/zz_verif_fuzz_test.go"],
         "run": "TestVerif_C02",
         "fuzz": [{"target": "FuzzVerif_C02", "seconds": 180}],
         "level": "exploration",
@@ -112,7 +112,7 @@ PROPS = {
     "C01": {
         "parts": [
             {"pkg": "internal/config", "run": "TestVerif_C01",
-             "files": ["shared/zz_verif_doc_test.go", "config/zz_verif_common_test.go", "config/zz_verif_C02_test.go", "config/zz_verif_C01_test.go"]},
+             "files": ["shared/zz_verif_doc_test.go", "config/zz_verif_common_test.go", "config/zz_verif_accepted_test.go", "config/zz_verif_C02_test.go", "config/zz_verif_C01_test.go"]},
             {"pkg": "internal/corerad", "run": "TestVerif_C01adv",
              "files": ["shared/zz_verif_doc_test.go", "corerad/zz_verif_C12_test.go", "corerad/zz_verif_sim_test.go", "corerad/zz_verif_adv_test.go", "corerad/zz_verif_mon_test.go",
                        "corerad/zz_verif_C06_test.go", "corerad/zz_verif_C04_test.go", "corerad/zz_verif_C17_test.go", "corerad/zz_verif_C01adv_test.go"]},
@@ -135,7 +135,7 @@ PROPS = {
     },
     "C03": {
         "pkg": "internal/config",
-        "files": ["shared/zz_verif_doc_test.go", "config/zz_verif_common_test.go", "config/zz_verif_C02_test.go", "config/zz_verif_C01_test.go", "config/zz_verif_C03_test.go"],
+        "files": ["shared/zz_verif_doc_test.go", "config/zz_verif_common_test.go", "config/zz_verif_accepted_test.go", "config/zz_verif_C02_test.go", "config/zz_verif_C01_test.go", "config/zz_verif_C03_test.go"],
         "run": "TestVerif_C03",
         "level": "exploration",
         "quick": {"shards": 8},
